@@ -51,13 +51,30 @@ fn scan(text: &str, out: &mut BTreeSet<String>) {
     }
 }
 
-/// tokens from /repo/src/scheme/*.rs plus a fixed list of template-language classics
+fn rust_files(dir: &std::path::Path, out: &mut Vec<std::path::PathBuf>) {
+    let Ok(rd) = std::fs::read_dir(dir) else { return };
+    let mut entries: Vec<_> = rd.filter_map(|e| e.ok()).map(|e| e.path()).collect();
+    entries.sort();
+    for p in entries {
+        if p.is_dir() {
+            rust_files(&p, out);
+        } else if p.extension().map(|e| e == "rs").unwrap_or(false) {
+            out.push(p);
+        }
+    }
+}
+
+/// tokens from every source file of the crate under test plus a fixed list of template-language classics
 pub fn tokens() -> Vec<String> {
     static CELL: std::sync::OnceLock<Vec<String>> = std::sync::OnceLock::new();
     CELL.get_or_init(|| {
         let mut set = BTreeSet::new();
-        for f in ["/repo/src/scheme/mod.rs", "/repo/src/scheme/manager.rs", "/repo/src/scheme/target_scheme.rs"] {
-            if let Ok(t) = std::fs::read_to_string(f) {
+        let mut files = vec![];
+        rust_files(std::path::Path::new("/repo/src"), &mut files);
+        for f in files {
+            if let Ok(t) = std::fs::read_to_string(&f) {
+                // the unit tests at the end of the files are not part of the generator
+                let t = t.split("#[cfg(test)]").next().unwrap_or("").to_string();
                 scan(&t, &mut set);
             }
         }
@@ -67,4 +84,34 @@ pub fn tokens() -> Vec<String> {
         set.into_iter().filter(|t| !t.is_empty()).collect()
     })
     .clone()
+}
+
+/// dictionary tokens that are plain words (letters, digits, '-', '_', '.'): usable as names
+pub fn words() -> Vec<String> {
+    let mut set = BTreeSet::new();
+    for t in tokens() {
+        for w in t.split(|c: char| !(c.is_ascii_alphanumeric() || c == '-' || c == '_' || c == '.')) {
+            if w.len() >= 2 && w.len() <= 16 {
+                set.insert(w.to_string());
+            }
+        }
+    }
+    for w in ["fid", "projid", "mirror-count", "stripe-count", "stripe-size", "xattr", "mdt", "stdout", "stderr"] {
+        set.insert(w.to_string());
+    }
+    set.into_iter().collect()
+}
+
+/// dictionary tokens that look like file-system paths (plus the classic special files)
+pub fn paths() -> Vec<String> {
+    let mut set = BTreeSet::new();
+    for t in tokens() {
+        if t.contains('/') && !t.contains(' ') && !t.contains('{') && t.len() <= 24 {
+            set.insert(t);
+        }
+    }
+    for w in ["/dev/stdout", "/dev/stderr", "/dev/null", "-", "/dev/fd/1", "/proc/self/fd/1", "."] {
+        set.insert(w.to_string());
+    }
+    set.into_iter().collect()
 }
